@@ -34,6 +34,9 @@ def run_programs(fam, header, progs, cases, configs, workdir, model_exe, nshards
     for n, p in enumerate(progs):
         if p.id is None:
             p.id = n
+    import common as _c
+    if _c.CFG_OVERRIDE:
+        nshards = min(nshards, 6)      # configuration matrix: fewer, larger translation units per cell
     nshards = max(1, min(nshards, len(progs)))
     shard_of = {p.id: (k % nshards) for k, p in enumerate(progs)}
     records, build_fail = [], []
